@@ -135,7 +135,37 @@ func cmdCheck(args []string) int {
 	os.MkdirAll(outDir, 0o755)
 
 	var results []*FuncResult
+	var fnKeys []string
 	for _, fk := range pc.Functions {
+		if strings.HasPrefix(fk, "tagged:") {
+			// every function of the package (suffix match) whose contract has a clause tagged with this property
+			suffix := fk[7:]
+			var ks []string
+			for key, ct := range e.db.Contracts {
+				if ct.Trusted || !strings.HasSuffix(ct.Pkg, suffix) {
+					continue
+				}
+				for _, cl := range ct.Clauses {
+					for _, tg := range cl.Tags {
+						if tg == prop {
+							ks = append(ks, key)
+						}
+					}
+				}
+			}
+			sort.Strings(ks)
+			last := ""
+			for _, k := range ks {
+				if k != last {
+					fnKeys = append(fnKeys, k)
+					last = k
+				}
+			}
+			continue
+		}
+		fnKeys = append(fnKeys, fk)
+	}
+	for _, fk := range fnKeys {
 		keys := e.resolveFuncKeys(fk)
 		if len(keys) == 0 {
 			results = append(results, &FuncResult{Key: fk, Aborted: "function not found: " + fk})
